@@ -11,6 +11,7 @@ import Rpft.Lemmas.Bisim
 import Rpft.FlowSys
 import Rpft.RefFlow
 import Rpft.Lemmas.RefFlowClosed
+import Rpft.Gen.Tables
 set_option linter.unusedSimpArgs false
 set_option linter.unusedVariables false
 namespace Rpft.Props.C02
@@ -135,6 +136,10 @@ per sheet this is decided by `flows_equiv_of_cert` on the real output. -/
 def C02_full (compile : List RefFlow.RRow → Option Flow.Flow) : Prop :=
   ∀ rows f r, compile rows = some f → RefFlow.refFlow rows = .ok r →
     ∀ env n, trace ⟨false, true⟩ r env n = trace ⟨false, true⟩ f env n
+
+/-- T1: the tests without argument of the reference interpretation are the source's
+`RouterCase.NO_ARGS_TESTS` (re-extracted on every run). -/
+theorem tables_agree : Gen.routerNoArgsTests = RefFlow.noArgsTests := by decide
 
 /-! ### the reference interpretation is itself well formed, for every sheet -/
 
